@@ -596,6 +596,39 @@ theorem checkConverted_sound [DecidableEq α] (cast : DType → α → α) (neg 
   obtain ⟨h1, h2, h3, h4, _, h6⟩ := checkSameFileVoxels_sound _ fin fout h.1
   exact ⟨h1, h2, h3, h4, h.2, h6⟩
 
+/-- **Completeness of the three remaining file/array checkers** (the converse of `checkSameVoxels_sound`,
+`checkSameFileVoxels_sound`, `checkConverted_sound`): whatever meets the stated specification is accepted, so the checkers
+run on the real code's arrays and files demand nothing beyond it. `checkConverted_sound` forgets the payload-size equality
+the checker also tests; the completeness statement therefore lists it as a hypothesis (it follows from equal `nx,ny,nz`
+when the INPUT file is well-formed too). -/
+theorem checkSameVoxels_complete [DecidableEq α] (d : α) (conv : α → α) (a b : Arr α)
+    (h : b.d0 = a.d0 ∧ b.d1 = a.d1 ∧ b.d2 = a.d2 ∧ b.WF ∧
+      ∀ i j k, i < a.d0 → j < a.d1 → k < a.d2 → b.at d i j k = conv (a.at d i j k)) :
+    checkSameVoxels d conv a b = true := by
+  obtain ⟨h1, h2, h3, h4, h5⟩ := h
+  simp only [checkSameVoxels, Bool.and_eq_true, decide_eq_true_eq, List.all_eq_true, List.mem_range]
+  exact ⟨⟨⟨⟨h1, h2⟩, h3⟩, h4⟩, fun i hi j hj k hk => h5 i j k (h1 ▸ hi) (h2 ▸ hj) (h3 ▸ hk)⟩
+
+theorem checkSameFileVoxels_complete [DecidableEq α] (conv : α → α) (f g : MapFile α)
+    (h : g.nx = f.nx ∧ g.ny = f.ny ∧ g.nz = f.nz ∧ FileWF g ∧ f.data.size = g.data.size ∧
+      ∀ i j k, i < f.nx → j < f.ny → k < f.nz →
+        g.data[offsetXFastest g.nx g.ny i j k]? = (f.data[offsetXFastest f.nx f.ny i j k]?).map conv) :
+    checkSameFileVoxels conv f g = true := by
+  obtain ⟨h1, h2, h3, h4, h4', h5⟩ := h
+  simp only [checkSameFileVoxels, Bool.and_eq_true, decide_eq_true_eq, List.all_eq_true, List.mem_range]
+  exact ⟨⟨⟨⟨⟨h1, h2⟩, h3⟩, h4⟩, h4'⟩, fun k hk j hj i hi => h5 i j k (h1 ▸ hi) (h2 ▸ hj) (h3 ▸ hk)⟩
+
+theorem checkConverted_complete [DecidableEq α] (cast : DType → α → α) (neg : α → α) (invert : Bool) (fin fout : MapFile α)
+    (h : fout.nx = fin.nx ∧ fout.ny = fin.ny ∧ fout.nz = fin.nz ∧ FileWF fout ∧ fin.data.size = fout.data.size ∧
+      fout.dtype = outDType none fin.dtype ∧
+      ∀ i j k, i < fin.nx → j < fin.ny → k < fin.nz →
+        fout.data[offsetXFastest fout.nx fout.ny i j k]?
+          = (fin.data[offsetXFastest fin.nx fin.ny i j k]?).map (convVoxel cast neg invert fin.dtype)) :
+    checkConverted cast neg invert fin fout = true := by
+  obtain ⟨h1, h2, h3, h4, h4', hd, h5⟩ := h
+  simp only [checkConverted, Bool.and_eq_true, decide_eq_true_eq]
+  exact ⟨checkSameFileVoxels_complete _ fin fout ⟨h1, h2, h3, h4, h4', h5⟩, hd⟩
+
 /-! ### the container formats down to the bytes (`Model/C11_Bytes`)
 
 `Raw` = what the bytes say (container, byte order, element type, `nx ny nz`, one bit pattern per voxel);
